@@ -1343,6 +1343,21 @@ func runC10(c *ev.Ctx) {
 			}
 		}
 	}
+	// single-shot requests through other reader types, several calls in a row on the same source: call k
+	// must judge chunk k (good and all-zero chunks alternate), and exactly numByte bytes are consumed per call
+	var seqSingles []int
+	{
+		r := gen.NewRng(gen.Mix(seed, 1014))
+		for _, nb := range []int{16, 100, 1280, 4096} {
+			for _, srcT := range []string{"", "bytes", "file", "bufio", "bufiobig", "limited", "pipe"} {
+				id++
+				period := make([]byte, 2*nb)
+				copy(period, r.Bytes(nb)) // a good chunk followed by an all-zero chunk
+				scns = append(scns, Scn{ID: id, WF: "Single", NumByte: nb, Repeat: 6, Source: srcT, Stream: Stream{Kind: "periodic", Period: hex.EncodeToString(period), Extra: 5 * nb, Tail: ""}, Chunk: mon.ChunkPlan{Kind: "whole"}, Note: fmt.Sprintf("numByte=%d x6 calls on one source=%q", nb, srcT)})
+				seqSingles = append(seqSingles, id)
+			}
+		}
+	}
 	// very large single-shot requests under short reads (sizes around 2^23 and 2^25, where readers and
 	// entropy sources start to split requests)
 	{
@@ -1449,6 +1464,30 @@ func runC10(c *ev.Ctx) {
 	}
 	for _, ids := range singles {
 		handle(ids, true)
+	}
+	for _, i := range seqSingles {
+		sc, r := byID[i], res[i]
+		if r == nil {
+			c.Inconclusive("no result: " + sc.Note)
+			continue
+		}
+		key := "Single:" + sc.Note
+		c.Eval(hashScn(sc), true)
+		c.Count("consecutive_single_shot_sequences", 1)
+		if r.Status != "returned" {
+			if r.Status == "timeout" {
+				c.Inconclusive(key + ": watchdog fired")
+			} else {
+				c.Violation(key+":"+r.Status, clip(r.Crash, 1200), "wf", sc)
+			}
+			continue
+		}
+		if fmt.Sprint(r.SeqVerdicts) != fmt.Sprint(r.SeqWant) {
+			c.Violation(key+":sequence", fmt.Sprintf("verdicts of the %d consecutive calls %v, reference poker on consecutive chunks %v (a call that does not consume its bytes makes the next one judge the same data)", sc.Repeat, r.SeqVerdicts, r.SeqWant), "wf", sc)
+		}
+		if r.Delivered >= 0 && r.Delivered != int64(sc.Repeat*sc.NumByte) {
+			c.Violation(key+":consumed", fmt.Sprintf("%d calls of SingleDetect(%d) consumed %d bytes", sc.Repeat, sc.NumByte, r.Delivered), "wf", sc)
+		}
 	}
 	total, distinct, sample := raceReports(os.Getenv("VERIF_WORK"))
 	c.Count("race_detector_reports", int64(total))
